@@ -67,3 +67,46 @@ class WirePort(BaseIOPort):
         while self.wire.buf:
             b = self.wire.buf.popleft()
             self._parser.feed_byte(b)
+
+
+class RecordingPort(BaseIOPort):
+    """Lifecycle double: logs _open/_close/_send/_receive(block) and delivers a
+    scripted supply of incoming messages.
+
+    dev        messages the device holds but the port has not taken in yet
+    batch      how many of them one _receive() call takes in
+    close_at   the device closes itself (like a socket reading EOF) inside the
+               first _receive() call made when at least close_at messages have
+               been taken in (after taking in that call's batch); None = never
+    send_fail  number of _send calls after which _send raises OSError
+    """
+
+    def _open(self, log=None, dev=(), batch=1, close_at=None, send_fail=None, label='rec', **kwargs):
+        self.log = log if log is not None else []
+        self.dev = list(dev)
+        self.batch = batch
+        self.close_at = close_at
+        self.send_fail = send_fail
+        self.label = label
+        self.taken = 0
+        self.nsend = 0
+        self.log.append((label, '_open'))
+
+    def _close(self):
+        self.log.append((self.label, '_close'))
+
+    def _send(self, msg):
+        self.nsend += 1
+        self.log.append((self.label, '_send', msg, self.closed))
+        if self.send_fail is not None and self.nsend > self.send_fail:
+            raise OSError('device refuses')
+
+    def _receive(self, block=True):
+        self.log.append((self.label, '_receive', block))
+        for _ in range(self.batch):
+            if self.dev:
+                m = self.dev.pop(0)
+                self._parser.feed(m.bytes())
+                self.taken += 1
+        if self.close_at is not None and self.taken >= self.close_at and not self.closed:
+            self.close()
